@@ -32,11 +32,14 @@ func init() {
 			"404 / 500 / HEAD-ok-GET-500 / foreign content type / stalls past --timeout 300ms (on HEAD or on GET), the flags " +
 			"--yes --download --offline --expiry 0|1h --insecure --timeout 300ms|10s --clear-cache vary, the cache is aged by 2h, " +
 			"the prompt is answered y/yes/n/… through a pty or there is no terminal, root entrypoint or include, two http URLs " +
-			"and one https URL, experiment on/off; observed: exit code, which version's marker ran, cache files (content version, " +
+			"on different paths, one https URL, and three http URLs that differ from the first only in the query (?v=2), in the letter " +
+			"case of the path, in a doubled slash (each served its own content; successive steps of a sequence share the cache directory, " +
+			"so a cache entry shared by two URLs shows as foreign content, a false 'has changed' prompt or a missing entry), experiment on/off; observed: exit code, which version's marker ran, cache files (content version, " +
 			"stored checksum, timestamp present) of every URL — compared with Remote.invoke over the same sequence; plus the " +
 			"property monitor (a marker ran ⇒ that version was offered under --yes or an accepted prompt at or before the step). " +
-			"Second stream (op remote.chain, 250 quick / 3000 thorough sequences): CHAINS — per sequence one of the two http URLs is A, " +
-			"the other B; A's served content (number v+10k) includes B by a relative (k=1,2) or absolute (k=3,4) http reference, " +
+			"Second stream (op remote.chain, 250 quick / 3000 thorough sequences): CHAINS — per sequence A and B are the two paths, or (37%) " +
+			"two URLs of one path that differ only in the query; A's served content (number v+10k) includes B by a relative (k=1,2,5) or " +
+			"absolute (k=3,4,6) http reference, " +
 			"rarely itself (cycle, 110) or nothing; A's probe task calls B's; per step the server behaves independently for A and for B " +
 			"(serve version / reset / 404 / 500 / GET-500 / foreign content type / stall on HEAD or GET; refuse = listener closed for both), " +
 			"both are read under the ONE --timeout 300ms|10s of the invocation (A stalling uses it up before B's read starts), flags as " +
@@ -48,7 +51,7 @@ func init() {
 
 type remStep struct {
 	Age        int    `json:"age,omitempty"` // hours the cache is aged before the step (model dt)
-	URL        int    `json:"url"`           // 0 http /aa, 1 http /bb, 2 https /aa (TLS to a plain-http server: always fails)
+	URL        int    `json:"url"`           // see remPaths: 0 http /aa, 1 http /bb, 2 https /aa (always fails), 3 /aa…?v=2, 4 /aa/taskfile.yml, 5 /aa//Taskfile.yml
 	Via        string `json:"via"`           // root | include
 	Yes        bool   `json:"yes,omitempty"`
 	Download   bool   `json:"download,omitempty"`
@@ -78,21 +81,60 @@ type remCase struct {
 	Chain bool      `json:"chain,omitempty"` // model op remote.chain; prompts answered per URL
 }
 
-const remURLs = 3
+// URL ids (the model's abstract, pairwise distinct cache keys): 0 http /aa/Taskfile.yml, 1 http /bb/Taskfile.yml,
+// 2 https /aa/Taskfile.yml (TLS to a plain-http server: always fails), and three URLs that differ from URL 0 only
+// 3 in the query (?v=2), 4 in the letter case of the path, 5 in a doubled slash.  Every http URL is served its
+// own content (the marker names the URL), so two URLs sharing one cache entry show as a foreign content or prompt.
+const remURLs = 6
 const remStallDelay = 1200 * time.Millisecond
 
-var remPaths = []string{"/aa/Taskfile.yml", "/bb/Taskfile.yml", "/aa/Taskfile.yml"}
+var remPaths = []string{"/aa/Taskfile.yml", "/bb/Taskfile.yml", "/aa/Taskfile.yml", "/aa/Taskfile.yml?v=2", "/aa/taskfile.yml", "/aa//Taskfile.yml"}
 
-// remContent: content number c = v + 10k of URL u (u = 0 /aa, 1 /bb); k = 0 is the plain Taskfile;
-// k = 1,3 includes URL 0 and k = 2,4 includes URL 1 (1,2: relative reference; 3,4: absolute, needs the port)
+// remHTTP: the URL ids the loopback server answers
+var remHTTP = []int{0, 1, 3, 4, 5}
+
+// remIncTable: k = c/10 of a content number → (included URL, absolute reference?)
+var remIncTable = map[int][2]int{1: {0, 0}, 2: {1, 0}, 3: {0, 1}, 4: {1, 1}, 5: {3, 0}, 6: {3, 1}}
+
+// remIncFor: the k of a content that includes URL `target` (0, 1 or 3) by a relative or an absolute reference
+func remIncFor(target int, abs bool) int {
+	for k, e := range remIncTable {
+		if e[0] == target && (e[1] == 1) == abs {
+			return k
+		}
+	}
+	return 0
+}
+
+// remOwner: which http URL a request is for — exactly (`exact`), or as that URL with a default Taskfile name
+// appended to its path by RemoteExists (`owner`)
+func remOwner(r *http.Request) (exact, owner int) {
+	exact, owner = -1, -1
+	for _, i := range remHTTP {
+		p, q, _ := strings.Cut(remPaths[i], "?")
+		if r.URL.RawQuery != q {
+			continue
+		}
+		if r.URL.Path == p {
+			exact, owner = i, i
+		} else if strings.HasPrefix(r.URL.Path, p+"/") && owner < 0 {
+			owner = i
+		}
+	}
+	return
+}
+
+// remContent: content number c = v + 10k of URL u; k = 0 is the plain Taskfile; otherwise it includes the URL
+// remIncTable[k] names (k = 1,3: URL 0; 2,4: URL 1; 5,6: URL 3; odd-even pairs 1,2,5 relative, 3,4,6 absolute — needs the port)
 func remContent(u, c, port int) []byte {
 	k := c / 10
-	if k < 1 || k > 4 {
+	inc, ok := remIncTable[k]
+	if !ok {
 		return []byte(fmt.Sprintf("version: '3'\nsilent: true\ntasks:\n  probe:\n    cmds:\n      - echo u%dv%d >> \"$VERIF_TRACE\"\n", u, c))
 	}
-	target := (k + 1) % 2 // 1,3 -> 0 ; 2,4 -> 1
+	target := inc[0]
 	ref := "../" + strings.TrimPrefix(remPaths[target], "/")
-	if k >= 3 {
+	if inc[1] == 1 {
 		ref = fmt.Sprintf("http://127.0.0.1:%d%s", port, remPaths[target])
 	}
 	return []byte(fmt.Sprintf("version: '3'\nsilent: true\nincludes:\n  b: %s\ntasks:\n  probe:\n    cmds:\n      - echo u%dv%d >> \"$VERIF_TRACE\"\n      - task: b:probe\n",
@@ -101,8 +143,8 @@ func remContent(u, c, port int) []byte {
 
 // remIncTarget: the URL that content number c includes (-1: none)
 func remIncTarget(c int) int {
-	if k := c / 10; k >= 1 && k <= 4 {
-		return (k + 1) % 2
+	if e, ok := remIncTable[c/10]; ok {
+		return e[0]
 	}
 	return -1
 }
@@ -139,7 +181,7 @@ func (s remStep) norm() remStep {
 	default:
 		s.Answer = "none"
 	}
-	if s.Inc < 0 || s.Inc > 4 {
+	if _, ok := remIncTable[s.Inc]; !ok {
 		s.Inc = 0
 	}
 	if s.Server2 != "" {
@@ -237,31 +279,19 @@ type remServer struct {
 	srv   *http.Server
 	port  int
 	state remStep
+	resv  int // while the listener is closed ("refuse"): a socket bound to the port but not listening (0 = none)
 }
 
 func (rs *remServer) handler(w http.ResponseWriter, r *http.Request) {
 	rs.mu.Lock()
 	st := rs.state
 	rs.mu.Unlock()
-	u := -1
-	for i, p := range remPaths[:2] {
-		if r.URL.Path == p {
-			u = i
-		}
-	}
+	u, owner := remOwner(r)
 	// which node of the step is asked for: the step's own URL (content V+10*Inc, behaviour Server), or —
 	// when the step describes a second node — the other http URL (content V2, behaviour Server2)
 	kind, cn := st.Server, st.c1()
-	if st.Server2 != "" {
-		pu := -1
-		for i, p := range remPaths[:2] {
-			if strings.HasPrefix(r.URL.Path, p[:strings.LastIndex(p, "/")+1]) {
-				pu = i
-			}
-		}
-		if pu >= 0 && pu != remCu(st.URL) {
-			kind, cn = st.Server2, st.V2
-		}
+	if st.Server2 != "" && owner >= 0 && owner != remCu(st.URL) {
+		kind, cn = st.Server2, st.V2
 	}
 	rs.mu.Lock()
 	port := rs.port
@@ -332,7 +362,37 @@ func (rs *remServer) handler(w http.ResponseWriter, r *http.Request) {
 	}
 }
 
+// reserve: bind (without listening) a socket to the server's port.  Connections to it are refused, and no
+// other sequence's server — they run in parallel and ask the kernel for any free port — can be given the
+// port while this sequence believes nobody listens there.
+func (rs *remServer) reserve() {
+	if rs.port == 0 || rs.resv != 0 {
+		return
+	}
+	for i := 0; i < 40; i++ {
+		fd, err := syscall.Socket(syscall.AF_INET, syscall.SOCK_STREAM, 0)
+		if err != nil {
+			return
+		}
+		syscall.SetsockoptInt(fd, syscall.SOL_SOCKET, syscall.SO_REUSEADDR, 1)
+		if err = syscall.Bind(fd, &syscall.SockaddrInet4{Port: rs.port, Addr: [4]byte{127, 0, 0, 1}}); err == nil {
+			rs.resv = fd
+			return
+		}
+		syscall.Close(fd)
+		time.Sleep(5 * time.Millisecond)
+	}
+}
+
+func (rs *remServer) release() {
+	if rs.resv != 0 {
+		syscall.Close(rs.resv)
+		rs.resv = 0
+	}
+}
+
 func (rs *remServer) listen() error {
+	rs.release()
 	addr := fmt.Sprintf("127.0.0.1:%d", rs.port)
 	var ln net.Listener
 	var err error
@@ -359,6 +419,7 @@ func (rs *remServer) close() {
 	if rs.srv != nil {
 		rs.srv.Close()
 		rs.srv, rs.ln = nil, nil
+		rs.reserve()
 	}
 }
 
@@ -518,8 +579,10 @@ func (rr *remRun) runCLI(s remStep, chain bool) (exit int, out string, err error
 		}
 		sl.Close()
 		pr := &promptResponder{master: m, texts: map[string]string{rr.urls[s.URL]: s.Text}}
-		if s.URL < 2 {
-			pr.texts[rr.urls[1-s.URL]] = s.Text2
+		for _, o := range remHTTP {
+			if o != remCu(s.URL) {
+				pr.texts[rr.urls[o]] = s.Text2
+			}
 		}
 		go func() {
 			b := make([]byte, 4096)
@@ -646,9 +709,15 @@ func (rr *remRun) cacheView() string {
 		switch {
 		case strings.HasSuffix(name, ".yaml"):
 			v[u].c = "?"
-			for k := 1; k <= 49; k++ {
-				if k%10 != 0 && bytes.Equal(b, remContent(cu, k, rr.srv.port)) {
-					v[u].c = fmt.Sprint(k)
+			for _, uu := range remHTTP {
+				for k := 1; k <= 69; k++ {
+					if k%10 != 0 && bytes.Equal(b, remContent(uu, k, rr.srv.port)) {
+						if uu == cu {
+							v[u].c = fmt.Sprint(k)
+						} else { // the content of another URL sits in this URL's cache file
+							v[u].c = fmt.Sprintf("!u%dv%d", uu, k)
+						}
+					}
 				}
 			}
 		case strings.HasSuffix(name, ".checksum"):
@@ -656,9 +725,15 @@ func (rr *remRun) cacheView() string {
 				break
 			}
 			v[u].s = "?"
-			for k := 1; k <= 49; k++ {
-				if k%10 != 0 && string(b) == sha256hex(remContent(cu, k, rr.srv.port)) {
-					v[u].s = fmt.Sprint(k)
+			for _, uu := range remHTTP {
+				for k := 1; k <= 69; k++ {
+					if k%10 != 0 && string(b) == sha256hex(remContent(uu, k, rr.srv.port)) {
+						if uu == cu {
+							v[u].s = fmt.Sprint(k)
+						} else {
+							v[u].s = fmt.Sprintf("!u%dv%d", uu, k)
+						}
+					}
 				}
 			}
 		case strings.HasSuffix(name, ".timestamp"):
@@ -690,7 +765,7 @@ func remEvalOnce(d remCase, work string) (impl string, err error) {
 	if e := rr.srv.listen(); e != nil {
 		return "", errInconclusive{"listen: " + e.Error()}
 	}
-	defer rr.srv.close()
+	defer func() { rr.srv.close(); rr.srv.release() }()
 	for u := 0; u < remURLs; u++ {
 		scheme := "http"
 		if u == 2 {
@@ -747,12 +822,18 @@ func remEvalOnce(d remCase, work string) (impl string, err error) {
 				return "", errInconclusive{fmt.Sprintf("spurious timeout: step %d node 1", i)}
 			}
 			spent := s.stalls() && !s.Patient
-			if !spent && (s.Server2 == "serve" || (s.stalls2() && s.Patient)) && lost(rr.urls[1-cu]) {
-				return "", errInconclusive{fmt.Sprintf("spurious timeout: step %d node 2", i)}
+			for _, o := range remHTTP {
+				if o != cu && !spent && (s.Server2 == "serve" || (s.stalls2() && s.Patient)) && lost(rr.urls[o]) {
+					return "", errInconclusive{fmt.Sprintf("spurious timeout: step %d node 2", i)}
+				}
 			}
 		}
 		if s.Server2 != "" && (s.Server2 == "serve" || (s.stalls2() && s.Patient)) && (s.Yes || s.Answer2 == "accept") {
-			approved[[2]int{1 - cu, s.V2}] = true
+			for _, o := range remHTTP { // whichever other URL the step's content includes
+				if o != cu {
+					approved[[2]int{o, s.V2}] = true
+				}
+			}
 		}
 		var ran []string
 		if b, e := os.ReadFile(rr.trace); e == nil {
@@ -765,7 +846,7 @@ func remEvalOnce(d remCase, work string) (impl string, err error) {
 			n, _ := fmt.Sscanf(m, "u%dv%d", &mu, &mv)
 			switch {
 			case n == 2 && j == 0 && mu == cu && approved[[2]int{s.URL, mv}]:
-			case n == 2 && j == 1 && d.Chain && mu == 1-cu && approved[[2]int{mu, mv}]: // the included Taskfile's probe
+			case n == 2 && j == 1 && d.Chain && mu != cu && approved[[2]int{mu, mv}]: // the included Taskfile's probe
 			default:
 				violation = true
 			}
@@ -782,7 +863,7 @@ func remEvalOnce(d remCase, work string) (impl string, err error) {
 			var mu, mv, nu, nv int
 			n1, _ := fmt.Sscanf(ran[0], "u%dv%d", &mu, &mv)
 			n2, _ := fmt.Sscanf(ran[1], "u%dv%d", &nu, &nv)
-			if n1 == 2 && n2 == 2 && mu == cu && nu == 1-cu {
+			if n1 == 2 && n2 == 2 && mu == cu && nu != cu && nu == remIncTarget(mv) {
 				res = fmt.Sprintf("run:%d+%d", mv, nv)
 			} else {
 				res = "run:?" + strings.Join(ran, "+")
@@ -850,8 +931,14 @@ func (c *Ctx) remStep(prev *remStep, pty bool) remStep {
 		s.Via = "include"
 	}
 	switch x := r.Intn(100); {
-	case x < 74:
+	case x < 50:
 		s.URL = 0
+	case x < 64: // same host and path as URL 0, another query
+		s.URL = 3
+	case x < 70: // … another letter case of the path
+		s.URL = 4
+	case x < 76: // … a doubled slash in the path
+		s.URL = 5
 	case x < 94:
 		s.URL = 1
 	default:
@@ -943,23 +1030,29 @@ func remServerKind(x int) string {
 	return "stallget"
 }
 
-// remChainStep: a step of a chain sequence.  `au` is the sequence's URL A (0 or 1): only A is ever served
-// content that includes the other URL B, so B's cached content is always a plain Taskfile (the model reads
-// chains of two).  The step reads A (as root or as the include of a local root) with probability 85%, else B.
-func (c *Ctx) remChainStep(prev *remStep, pty bool, au int, stallBudget *int) remStep {
+// remChainStep: a step of a chain sequence.  `au`, `bu` are the sequence's URLs A and B: only A is ever served
+// content that includes B (or itself), so the cached content of every other URL is a plain Taskfile (the model reads
+// chains of two).  The step reads A (as root or as the include of a local root) with probability 85%, else B or
+// another http URL.
+func (c *Ctx) remChainStep(prev *remStep, pty bool, au, bu int, stallBudget *int) remStep {
 	r := c.Rng
 	s := c.remStep(prev, pty)
 	s.URL = au
-	if r.Intn(100) < 15 {
-		s.URL = 1 - au
+	switch x := r.Intn(100); {
+	case x < 10:
+		s.URL = bu
+	case x < 15: // some other plain URL sharing the cache directory (not URL 5: url.JoinPath cleans its doubled slash
+		// away, so RemoteExists' probes for default Taskfile names under it are requests under URL 0, which a
+		// chain step may serve differently from the step's own URL)
+		s.URL = []int{0, 1, 3, 4}[r.Intn(4)]
 	}
 	s.Inc = 0
 	if s.URL == au {
 		switch x := r.Intn(100); {
 		case x < 78: // includes B, by a relative or an absolute reference
-			s.Inc = 1 + (1 - au) + 2*r.Intn(2)
+			s.Inc = remIncFor(bu, r.Intn(2) == 1)
 		case x < 83: // includes itself
-			s.Inc = 1 + au + 2*r.Intn(2)
+			s.Inc = remIncFor(au, r.Intn(2) == 1)
 		}
 		if prev != nil && prev.URL == au && r.Intn(100) < 60 {
 			s.V, s.Inc = prev.V, prev.Inc
@@ -1039,21 +1132,28 @@ func runRemote(c *Ctx) {
 	for i := 0; i < nChain; i++ {
 		k := 2 + c.Rng.Intn(maxLen-1)
 		d := remCase{Chain: true}
-		au := 0
-		if c.Rng.Intn(100) < 20 {
-			au = 1
+		// A and B: the two paths, or two URLs of one path that differ only in the query
+		au, bu := 0, 1
+		switch x := c.Rng.Intn(100); {
+		case x < 45:
+		case x < 60:
+			au, bu = 1, 0
+		case x < 82:
+			au, bu = 0, 3
+		default:
+			au, bu = 3, 0
 		}
 		var prev *remStep
 		for j := 0; j < k; j++ {
-			s := c.remChainStep(prev, pty, au, &stallBudget)
+			s := c.remChainStep(prev, pty, au, bu, &stallBudget)
 			if j == 0 && c.Rng.Intn(100) < 70 { // most histories start by getting approved copies of A and of B
 				wasStall := (s.stalls() || s.stalls2()) && !s.Patient && !s.NoExp
 				s.URL, s.Server, s.Server2, s.Yes, s.Insecure, s.NoExp, s.Offline, s.Clear, s.Patient = au, "serve", "serve", true, true, false, false, false, false
 				if wasStall {
 					stallBudget++
 				}
-				if remIncTarget(s.c1()) != 1-au {
-					s.Inc = 1 + (1 - au) + 2*c.Rng.Intn(2)
+				if remIncTarget(s.c1()) != bu {
+					s.Inc = remIncFor(bu, c.Rng.Intn(2) == 1)
 				}
 				s = s.norm()
 			}
@@ -1089,11 +1189,26 @@ func runRemote(c *Ctx) {
 			c.Hit("server:" + s.Server)
 			c.Hit("answer:" + s.Answer)
 			c.Hit("via:" + s.Via)
+			c.Hit(fmt.Sprintf("url:%d", s.URL))
 			if d.Chain {
 				c.Hit("chain:step")
 				c.Hit("chain:server2:" + s.Server2)
 				c.Hit("chain:answer2:" + s.Answer2)
-				c.Hit("chain:inc:" + []string{"none", "rel", "rel", "abs", "abs"}[s.Inc] + func() string {
+				c.Hit("chain:inc:" + func() string {
+					e, ok := remIncTable[s.Inc]
+					switch {
+					case !ok:
+						return "none"
+					case e[1] == 1:
+						return "abs"
+					}
+					return "rel"
+				}() + func() string {
+					if t := remIncTarget(s.c1()); t == 3 || (t == 0 && remCu(s.URL) == 3) {
+						return "-query-variant"
+					}
+					return ""
+				}() + func() string {
 					if t := remIncTarget(s.c1()); t >= 0 && t == remCu(s.URL) {
 						return "-self"
 					}
